@@ -80,8 +80,15 @@ func H_C07_seedSchedule() {
 func H_C07_plumbing() {
 	s := nondetU64("flagseed")
 	assume(s != 0)
+	// history: the process already asked for base seeds before the flag was set (a package-level
+	// Example(), an earlier Check) - the flag still decides, verbatim, every time
+	flags.seed = 0
+	for k := choose("earlier", 3); k > 0; k-- {
+		_ = baseSeed()
+	}
 	flags.seed = s
 	vassert(baseSeed() == s, "C07: -rapid.seed is not used as the base seed")
+	vassert(baseSeed() == s, "C07: -rapid.seed is not used as the base seed by a second Check in the same process")
 	flags.checks = 1
 	flags.nofailfile = true
 	flags.shrinkTime = 0
@@ -91,6 +98,11 @@ func H_C07_plumbing() {
 	// the first test case draws from the PRNG seeded with exactly the flag value
 	fresh := newRandomBitStream(s, false)
 	vassert(len(d.words) >= 1 && d.words[0] == fresh.drawBits(64), "C07: the first test case is not generated from -rapid.seed")
+	// ... and so does the first test case of a second Check run afterwards in the same process
+	d2 := &rawProp{}
+	runIsolated(func() { checkTB(newVTB("P2"), farDeadline(), d2.prop) })
+	fresh2 := newRandomBitStream(s, false)
+	vassert(len(d2.words) >= 1 && d2.words[0] == fresh2.drawBits(64), "C07: a second Check under the same -rapid.seed does not start from that seed (the run depends on what ran before)")
 	if len(tb.errorfs) == 1 && strings.Contains(tb.errorfs[0], "failed after") {
 		reach("failed")
 		iter := 0
